@@ -648,7 +648,11 @@ def framing_cases(run):
              'MSH|^~\\&|SEND|FAC|REC|FAC|20240101||ADT^A01^ADT_A01|42|P|2.5\rEVN|A01|20240101\rPID|1||123^^^HOSP||DOE^JOHN',
              'MSH|^~\\&|A|B|C|D|20240101||ORU^R01^ORU_R01|7|P|2.4\rPID|1||9\rOBR|1\rOBX|1|ST|X||value',
              'MSH|^~\\&#|A|B|C|D|20240101||ADT^A01^ADT_A01|8|P|2.7\rEVN||20240101\rPID|1||5||X^Y',
-             'MSH|^~\\&|A|B|C|D|20240101||ACK|9|P|2.3\rMSA|AA|9']
+             'MSH|^~\\&|A|B|C|D|20240101||ACK|9|P|2.3\rMSA|AA|9',
+             # messages that carry their own (non-default) delimiters
+             'MSH$%~\\&$SEND$FAC$REC$FAC$20240101$$QBP%Q22%QBP_Q21$43$P$2.5\rQPD$IHE PDQ Query$111069$@PID.5.1%SMITH\rRCP$I',
+             'MSH!@*?:!A!B!C!D!20240101!!ADT@A01@ADT_A01!44!P!2.6\rEVN!!20240101\rPID!1!!5@@@H:1:I!!X@Y*Z@W',
+             'MSH!@*?:+!A!B!C!D!20240101!!ADT@A01@ADT_A01!45!P!2.7\rEVN!!20240101\rPID!1!!5!!X@Y']
     cases = []
     objs = []
     n = 0
@@ -688,6 +692,20 @@ def framing_cases(run):
         if got != '\x0b' + er7 + '\r\x1c\r':
             run.fail('to-mllp-shape', 'to_mllp() is not start-block + to_er7() + CR + end-block + CR',
                      text='(built ADT_A01)', find_groups=False, kwargs=[], er7=er7, observed=got)
+        cases.append((er7, got))
+        objs.append((m, {}))
+        # built with its own delimiters
+        ecs = {'FIELD': '#', 'COMPONENT': ':', 'SUBCOMPONENT': '=', 'REPETITION': ';', 'ESCAPE': '?', 'SEGMENT': '\r',
+               'GROUP': '\r'}
+        m = Message('ADT_A01', version='2.5', validation_level=VALIDATION_LEVEL.TOLERANT, encoding_chars=ecs)
+        m.msh.msh_9 = 'ADT:A01:ADT_A01'
+        m.msh.msh_10 = '78'
+        m.add_segment('PID').pid_5 = 'DOE:JANE;ROE:J'
+        er7, got = m.to_er7(), m.to_mllp()
+        n += 1
+        if got != '\x0b' + er7 + '\r\x1c\r' or not er7.startswith('MSH#:;?=#'):
+            run.fail('to-mllp-shape', 'to_mllp() is not start-block + to_er7() + CR + end-block + CR',
+                     text='(built ADT_A01 with its own delimiters)', find_groups=False, kwargs=[], er7=er7, observed=got)
         cases.append((er7, got))
         objs.append((m, {}))
     except Exception as ex:  # noqa
